@@ -10,6 +10,8 @@ use std::collections::{BTreeMap, BTreeSet, HashMap};
 use std::path::PathBuf;
 use std::sync::atomic::{AtomicU64, Ordering};
 use std::sync::{Arc, Mutex};
+#[allow(unused_imports)]
+use std::sync::atomic::AtomicU64 as _A;
 use std::time::Instant;
 
 pub struct Ctx {
@@ -119,6 +121,42 @@ pub struct Outcome {
     pub known: Vec<String>,        // known findings observed (signature)
 }
 
+impl Violation {
+    pub fn to_json(&self) -> J {
+        json!({"clause": self.clause, "signature": self.signature, "detail": self.detail, "expected": self.expected, "observed": self.observed})
+    }
+    pub fn from_json(j: &J) -> Option<Violation> {
+        let s = |k: &str| j.get(k).and_then(J::as_str).map(str::to_string);
+        Some(Violation { clause: s("clause")?, signature: s("signature")?, detail: s("detail")?, expected: s("expected")?, observed: s("observed")? })
+    }
+}
+
+impl Outcome {
+    pub fn to_json(&self) -> J {
+        json!({
+            "violation": self.violation.as_ref().map(Violation::to_json),
+            "skipped": self.skipped, "fired": self.fired, "probes": self.probes, "cells": self.cells,
+            "nontrivial": self.nontrivial, "history_shape": self.history_shape, "io_events": self.io_events, "known": self.known,
+        })
+    }
+    pub fn from_json(j: &J) -> Option<Outcome> {
+        let strs = |k: &str| -> Vec<String> {
+            j.get(k).and_then(J::as_array).map(|a| a.iter().filter_map(|x| x.as_str().map(str::to_string)).collect()).unwrap_or_default()
+        };
+        Some(Outcome {
+            violation: j.get("violation").and_then(Violation::from_json),
+            skipped: j.get("skipped").and_then(J::as_str).map(str::to_string),
+            fired: strs("fired"),
+            probes: strs("probes"),
+            cells: strs("cells"),
+            nontrivial: j.get("nontrivial").and_then(J::as_bool).unwrap_or(false),
+            history_shape: j.get("history_shape").and_then(J::as_u64).unwrap_or(0),
+            io_events: j.get("io_events").and_then(J::as_u64).unwrap_or(0),
+            known: strs("known"),
+        })
+    }
+}
+
 pub trait Property: Sync {
     fn id(&self) -> &'static str;
     fn level(&self) -> &'static str;
@@ -171,7 +209,7 @@ pub struct Summary {
 
 fn workers() -> usize {
     std::env::var("VERIF_WORKERS").ok().and_then(|v| v.parse().ok()).unwrap_or_else(|| {
-        std::thread::available_parallelism().map(|n| n.get()).unwrap_or(4)
+        std::thread::available_parallelism().map(|n| n.get() * 2).unwrap_or(8)
     })
 }
 
@@ -182,27 +220,74 @@ pub fn run_property(ctx: &Ctx, prop: &dyn Property) -> Summary {
     let n = std::env::var("VERIF_RUNS").ok().and_then(|v| v.parse().ok()).unwrap_or_else(|| prop.runs(&ctx.tier));
     let label = prop.id();
     println!("seedsim: property={} tier={} VERIF_SEED={} runs={} workers={}", label, ctx.tier, ctx.seed, n, workers());
+    {
+        use std::io::Write;
+        let _ = std::io::stdout().flush();
+    }
 
-    let next = AtomicU64::new(0);
-    let results: Mutex<Vec<Option<(Case, Outcome)>>> = Mutex::new((0..n).map(|_| None).collect());
-    let nw = workers();
-    std::thread::scope(|s| {
-        for wk in 0..nw {
-            let next = &next;
-            let results = &results;
-            s.spawn(move || loop {
-                let i = next.fetch_add(1, Ordering::Relaxed);
-                if i >= n {
-                    break;
-                }
+    // Worker *processes* (fork before any thread exists): concurrent forks from
+    // one multi-threaded process serialise on the address-space lock.
+    let nw = workers().max(1);
+    let res_dir = ctx.cfg.scratch.join("results");
+    let _ = std::fs::create_dir_all(&res_dir);
+    let mut pids = vec![];
+    for wk in 0..nw {
+        let pid = unsafe { libc::fork() };
+        if pid < 0 {
+            eprintln!("HARNESS-ERROR: fork failed");
+            std::process::exit(2);
+        }
+        if pid == 0 {
+            crate::exec::start_watchdog();
+            let path = res_dir.join(format!("r{wk}.jsonl"));
+            let mut f = std::io::BufWriter::new(std::fs::File::create(&path).expect("cannot create result file"));
+            let mut i = wk as u64;
+            while i < n {
                 let mut rng = Rng::for_run(ctx.seed, label, i);
                 let case = prop.gen_case(ctx, wk, &mut rng, i);
                 let out = prop.check(ctx, wk, &case);
-                results.lock().unwrap()[i as usize] = Some((case, out));
-            });
+                let line = json!({"i": i, "case": case.to_json(), "out": out.to_json(), "runs": ctx.child_runs.swap(0, Ordering::Relaxed)});
+                use std::io::Write;
+                writeln!(f, "{line}").expect("cannot write result");
+                i += nw as u64;
+            }
+            use std::io::Write;
+            f.flush().expect("flush");
+            drop(f);
+            unsafe { libc::_exit(0) };
         }
-    });
-    let results = results.into_inner().unwrap();
+        pids.push(pid);
+    }
+    for pid in pids {
+        let mut st = 0;
+        unsafe { libc::waitpid(pid, &mut st, 0) };
+        if !(libc::WIFEXITED(st) && libc::WEXITSTATUS(st) == 0) {
+            eprintln!("HARNESS-ERROR: worker process failed (status {st})");
+            std::process::exit(2);
+        }
+    }
+    crate::exec::start_watchdog();
+    let mut results: Vec<Option<(Case, Outcome)>> = (0..n).map(|_| None).collect();
+    let mut worker_runs = 0u64;
+    for wk in 0..nw {
+        let path = res_dir.join(format!("r{wk}.jsonl"));
+        let text = std::fs::read_to_string(&path).unwrap_or_default();
+        for line in text.lines() {
+            let j: J = match serde_json::from_str(line) {
+                Ok(j) => j,
+                Err(_) => continue,
+            };
+            let i = j.get("i").and_then(J::as_u64).unwrap_or(u64::MAX);
+            worker_runs += j.get("runs").and_then(J::as_u64).unwrap_or(0);
+            if let (Some(c), Some(o)) = (j.get("case").and_then(Case::from_json), j.get("out").and_then(Outcome::from_json)) {
+                if (i as usize) < results.len() {
+                    results[i as usize] = Some((c, o));
+                }
+            }
+        }
+        let _ = std::fs::remove_file(&path);
+    }
+    ctx.child_runs.fetch_add(worker_runs, Ordering::Relaxed);
 
     // aggregate in index order
     let known = load_known(&ctx.verif_dir);
@@ -328,7 +413,7 @@ pub fn run_property(ctx: &Ctx, prop: &dyn Property) -> Summary {
             "skipped": skipped,
             "known_findings_seen": known_seen,
             "runs_per_hour": if wall > 0.0 { (child_runs as f64 / wall * 3600.0) as u64 } else { 0 },
-            "workers": nw,
+            "workers": nw as u64,
             "exhaustive": false,
             "components": {
                 "real": ["seed binary built from /repo working tree (dev profile)", "Rust std (buffering, EINTR retry, exit-time flush)", "glibc (non-interposed part)", "Linux kernel for non-faulted calls (tmpfs files, pipes, sockets)"],
